@@ -9,6 +9,29 @@ use zipf::ZipfDistribution;
 
 use sta_rs::*;
 
+/// Observation point for external verification tooling: a callback run
+/// at the start of the processing of every bucket of reports. Compiled
+/// only with the (off by default) `verif-hooks` feature.
+#[cfg(feature = "verif-hooks")]
+pub mod verif {
+  use std::sync::RwLock;
+
+  /// Receives the tag of the bucket and the number of reports in it.
+  pub type BucketHook = Box<dyn Fn(&[u8], usize) + Send + Sync>;
+
+  static HOOK: RwLock<Option<BucketHook>> = RwLock::new(None);
+
+  pub fn set_bucket_hook(hook: Option<BucketHook>) {
+    *HOOK.write().unwrap() = hook;
+  }
+
+  pub(crate) fn on_bucket(tag: &[u8], reports: usize) {
+    if let Some(h) = HOOK.read().unwrap().as_ref() {
+      h(tag, reports);
+    }
+  }
+}
+
 // The `zipf_measurement` function returns a client `Measurement` sampled from
 // Zipf power-law distribution with `n` corresponding to the number
 // of potential elements, and `s` the exponent.
@@ -84,6 +107,10 @@ impl AggregationServer {
     &self,
     messages: &[Message],
   ) -> Result<Output, AggServerError> {
+    #[cfg(feature = "verif-hooks")]
+    if let Some(first) = messages.first() {
+      verif::on_bucket(&first.tag, messages.len());
+    }
     let mut enc_key_buf = vec![0u8; 16];
     self.key_recover(messages, &mut enc_key_buf)?;
 
